@@ -70,7 +70,7 @@ def run(tier, seed):
     # the error_tol keyword of simulate() set to 0 (dyadic amounts reach exactly 0), large amounts, a team given a task while the run is stopped
     extra = [(sp, dict(o, error_tol=0.0)) for sp, o in its[:: (11 if tier == "quick" else 3)]]
     extra += [(sp, {"rule": "TSLACK", "max_time": 20}) for sp in F.large_amount_specs() + F.mixed_wiring_specs()]
-    extra += stepcheck.resumed_edit_items(("team-add-target",), ks=(1, 2, 3))
+    extra += stepcheck.resumed_edit_items(("team-add-target",), ks=(1, 2, 3, 4, 5))
     col.merge(stepcheck.explore(extra, MONS, 0, 0, seed=seed))
     meta = {
         "level": "model_checking",
